@@ -74,12 +74,11 @@ type c02Exec struct {
 	events []kemtypes.KubeEvent
 }
 
-func (x *c02Exec) groupID(g string) int {
-	if g == "" {
-		return 0
-	}
-	return int(g[1] - '0')
-}
+// group names are arbitrary strings too (compared byte by byte by the group -> includeSnapshotsFrom
+// expansion): the pool holds relatives of one name.
+var c02GroupIDs = map[string]int{"": 0, "g1": 1, "g2": 2, "G1": 3, "g1 ": 4, "g": 5}
+
+func (x *c02Exec) groupID(g string) int { return c02GroupIDs[g] }
 
 func (x *c02Exec) kube(name string) *c02Bind {
 	for i := range x.binds {
@@ -488,7 +487,7 @@ func (x *c02Exec) yaml() string {
 	sb.WriteString("configVersion: v1\n")
 	common := func(b c02Bind) {
 		if b.group != "" {
-			fmt.Fprintf(&sb, "  group: %s\n", b.group)
+			fmt.Fprintf(&sb, "  group: %s\n", c02YamlStr(b.group))
 		}
 		if len(b.incl) > 0 {
 			fmt.Fprintf(&sb, "  includeSnapshotsFrom: %s\n", yamlList(b.incl))
@@ -545,6 +544,9 @@ func (x *c02Exec) genBindings() {
 	rng := x.rng
 	nk := rng.Range(2, 4)
 	groups := []string{"", "", "g1", "g1", "g2"}
+	if rng.Chance(40) {
+		groups = []string{"", "", "g1", "g1", "G1", "G1", "g1 ", "g", "g2"}
+	}
 	// binding names are arbitrary strings compared byte by byte: pairwise different, but related
 	knames, family, bucket := c02BindingNames(rng, nk)
 	x.nameBucket = bucket
